@@ -236,7 +236,9 @@ fn main() -> Result<(), Box<dyn std::error::Error>> {
                     // Broadcast that client tasks need to finish
                     let _ = shutdown_tx.send(());
                     let exit_tx = exit_tx.clone();
-                    let _ = drain_tx.send(0).await;
+                    // This loop is the reader of the channel: never wait for room in it.
+                    // If it is full, the counter is looked at when the next message arrives.
+                    let _ = drain_tx.try_send(0);
 
                     tokio::task::spawn(async move {
                         let mut interval = tokio::time::interval(tokio::time::Duration::from_millis(config.general.shutdown_timeout));
@@ -328,7 +330,10 @@ fn main() -> Result<(), Box<dyn std::error::Error>> {
                     total_clients += client_ping;
 
                     if total_clients == 0 && admin_only {
-                        let _ = exit_tx.send(()).await;
+                        // This loop reads the exit channel itself: if an exit message is
+                        // already queued there is nothing to add, and waiting for room
+                        // would block for ever.
+                        let _ = exit_tx.try_send(());
                     }
                 }
             }
